@@ -32,7 +32,7 @@ pub fn hex(b: &[u8]) -> String {
 }
 
 /// Callbacks that record every event in canonical text form.  With
-/// `resizing` set, `resize` also calls `set_size` (when both values are >= 1).
+/// `resizing` set, `resize` also calls `set_size` (when both values are in 1..=512).
 #[derive(Default, Clone)]
 pub struct Recorder {
     pub events: Vec<String>,
@@ -71,7 +71,7 @@ impl vt100::Callbacks for Recorder {
     }
     fn resize(&mut self, screen: &mut vt100::Screen, request: (u16, u16)) {
         self.events.push(format!("EV resize {} {}", request.0, request.1));
-        if self.resizing && request.0 >= 1 && request.1 >= 1 {
+        if self.resizing && (1..=512).contains(&request.0) && (1..=512).contains(&request.1) {
             screen.set_size(request.0, request.1);
         }
     }
